@@ -536,7 +536,9 @@ func (m *Monitors) onPod(ev *Event) {
 			rec.LateSuccess = rec.Succeeded && (p.DeletionTimestamp != nil || !rec.DelReqAt.IsZero())
 			for _, cs := range p.Status.ContainerStatuses {
 				if cs.State.Terminated != nil {
-					rec.FinishedAt = cs.State.Terminated.FinishedAt.Time
+					if t := cs.State.Terminated.FinishedAt.Time; t.After(rec.FinishedAt) {
+						rec.FinishedAt = t
+					}
 					if cs.State.Terminated.Reason == "OOMKilled" {
 						rec.Succeeded = false
 					}
